@@ -31,6 +31,54 @@ CHECKS = {
    design_ref="DESIGN.md §7 C08",
    technique="Lean 4 theorems over an executable list model + exact differential check against forsys.frames.Frame",
    note=BASE_NOTE + " own_cells-has-two-cells and lookup-by-cells are listed as pending obligations in the evidence."),
+ "C09": dict(
+   category="proof",
+   text="`Mesh.Consistent` is the property's five clauses as a decidable predicate. Theorems: the constructor pattern every parser uses "
+        "(all vertices, then mesh edges, then cells; model `ofLists`) yields a consistent mesh for every well-formed input; deleting an "
+        "edge or a cell (with the __del__ unregistration) preserves the clauses it touches; Surface Evolver's orphan removal preserves "
+        "consistency; the edge rebuild of generate_mesh restores 'a vertex lists an edge iff it ends there'. Tied to the code per run: "
+        "after every step of generated histories (each parser, generate_mesh, Frame) the real dictionaries are dumped and the predicate is "
+        "evaluated by the Lean driver and by an independent Python transcription (incl. object identity); `ofLists` and `generateMesh` are "
+        "compared with the real constructors / generate_mesh exactly. Skeleton clean-up and join_two_vertices have no preservation theorem "
+        "(listed as pending): for them the claim rests on the per-run evaluation.",
+   design_ref="DESIGN.md §7 C09",
+   technique="Lean 4 invariant theorems over an association-list mesh model + per-step evaluation of the Lean predicate on dumps of the real objects",
+   note=BASE_NOTE + " CPython is assumed to run __del__ as soon as the last reference goes."),
+ "C11": dict(
+   category="proof",
+   text="Theorems about the per-interface rule `pick` for every list and every ne (unchanged when short, exactly ne+1 points otherwise, "
+        "ordered subsequence, both ends kept, i-th point = floor(len*i/ne), idempotent, commutes with relabelling) and about the whole "
+        "`generateMesh` model without merging (reported interfaces = pick of the originals; surviving vertices = originals occurring in a "
+        "resampled interface with unchanged id/coordinates; interface ends survive; every cycle is a subsequence of its original). Tied to the "
+        "code by exact comparison of generate_mesh's three dictionaries, nEdgeArray and error kind with the model, plus an oracle for every "
+        "clause on (snapshot before, result), incl. junction positions, adjacency, midpoint contraction and idempotence. Merging of "
+        "two-point border interfaces in chains is a known finding (D17).",
+   design_ref="DESIGN.md §7 C11",
+   technique="Lean 4 theorems over list/mesh model + exact differential check against virtual_edges.generate_mesh",
+   note=BASE_NOTE + " int(len/ne*i) == floor(len*i/ne) is re-checked exhaustively per run for len<800 (quick) / 3000 (thorough), ne<=12."),
+ "C02": dict(
+   category="proof",
+   text="Theorems about the tangent rule (closed form of the per-component sign forcing; unit length preserved; the reference rule is the "
+        "tangent of the circle about the fitted centre, along the first chord, and is characterised uniquely; the coded rule equals it under "
+        "the sign-agreement hypothesis, with a concrete mirror witness = finding D2; independence of storage direction; two-point interfaces "
+        "give the chord) and about the assembled rows (one column per used interface, no coefficient and no equation for vertices of fewer "
+        "than three cells, keep-rule = at least three placed interfaces, <4 with ignore_four, unknowns = internal interfaces when no limit). "
+        "Tied to the code per run: matrix, row map, unknown list compared with the model fed with the real fit's centres (zero pattern exact, "
+        "coefficients 1e-9), and an oracle against closed-form tangents of Moebius images / lattices (1e-6 arcs).",
+   design_ref="DESIGN.md §7 C02",
+   technique="Lean 4 theorems over Rat model of tangent and matrix assembly + differential check with closed-form Moebius tangents",
+   note=BASE_NOTE + " The circle fit is an external kernel whose centre is an input of the model. Known finding D2 (mirrored tangent) is reported as KNOWN-FINDING."),
+ "C05": dict(
+   category="proof",
+   text="The solvers are external kernels; proved is the soundness of the certificates evaluated per run in exact rational arithmetic on "
+        "the floats the real solver returned: KKT with slack => within 2(eps*sum(y)+delta) of every non-negative candidate (kkt_gap/kkt_sound), "
+        "strong form and uniqueness up to the kernel of M, stationary point => global minimiser, exact solution => minimiser, shape of "
+        "add_mean_one and 'zero residual => sum x = n'. Per run (hook FORSYS_VERIF=1): the augmented system is rebuilt by the model and compared "
+        "exactly, the certificate for the path taken is checked by the Lean driver, and an independent NNLS reference decides the objective "
+        "gap, closeness when unique, sign, finiteness and mean one. fix_stress (KF1) and the inversion path's negative multiplier (KF3) are known findings.",
+   design_ref="DESIGN.md §7 C05",
+   technique="Lean 4 soundness theorems for optimality certificates + per-run exact certificate checking of the real solver output",
+   note=BASE_NOTE + " Certificate tolerances (relative to system scale): 1e-9 inv/nnls, 1e-5 lsq, 1e-6 lsq_linear."),
 }
 
 NOT_APPLICABLE = {
